@@ -490,6 +490,20 @@ pub fn run(tier: Tier) -> i32 {
         two.data[(2 * cells) / 3] = 5.0;
         cj.push(two);
     }
+    {
+        // the statistics of a folded spectrum written and routed in every other way
+        let mut sp: Vec<(Vec<String>, Vec<u8>)> = Vec::new();
+        for x in cj.iter().step_by(3).take(6) {
+            let all: Vec<&str> = ALL_STATS.iter().copied().filter(|st| admissible(st, &x.shape) && FOLD_INVARIANT.contains(st)).collect();
+            if all.is_empty() {
+                continue;
+            }
+            let folded = run_sfs(&["fold", "--fill", "zero", "--precision", "17"], Stdin::Bytes(text_of(x).as_bytes()), &scratch).stdout;
+            sp.push((vec!["stat".into(), "-s".into(), all.join(","), "--precision".into(), "12".into()], folded));
+            sp.push((vec!["stat".into(), "-s".into(), all.join(","), "--precision".into(), "12".into()], text_of(x).into_bytes()));
+        }
+        super::spelling_part(&mut rep, "C14", "stat on a spectrum and on its fold with fill zero, for six spectra", &sp, &scratch);
+    }
     let res = par_map(cj.len(), |i| eval_cli(&cj[i], &scratch));
     let mut ev = 0;
     for (n, v) in res {
